@@ -17,6 +17,7 @@
 import itertools
 import json
 import random
+import time
 
 import common
 import cleanlib
@@ -336,14 +337,15 @@ def shrink_candidates(case):
         yield c
 
 
-def shrink(case, budget=150):
+def shrink(case, budget=150, seconds=45):
     cur = case
     progress = True
-    while progress and budget > 0:
+    t_end = time.time() + seconds
+    while progress and budget > 0 and time.time() < t_end:
         progress = False
         for cand in shrink_candidates(cur):
             budget -= 1
-            if budget <= 0:
+            if budget <= 0 or time.time() > t_end:
                 break
             if fails(cand):
                 cur = cand
